@@ -6,7 +6,7 @@ Dir(lp, lb, rp, rb) == [lp |-> lp, lb |-> lb, rp |-> rp, rb |-> rb]
 DirU == Dir("U", "none", "none", "none")
 IdsBase == <<[a |-> 1, f |-> "lower", id |-> "slot-rsa"], [a |-> 3, f |-> "upper", id |-> "slot-ec"]>>
 Base == [hs |-> <<"regular">>, ns |-> "NONS", hard |-> FALSE, ln |-> "ln", ru |-> "ru", rh |-> "rh", ip |-> "ip", tid |-> "t",
-         algo |-> 1, val |-> 43200, ids |-> IdsBase, dir |-> DirU, ans |-> "honest",
+         algo |-> 1, val |-> 43200, valx |-> "43200", ids |-> IdsBase, dir |-> DirU, ans |-> "honest",
          ncert |-> 1, ncsr |-> 1, sgen |-> "ok", more |-> FALSE, fok |-> FALSE,
          wire |-> "json",       \* request message format: "json", or the text of the legacy HardKey attribute ("absent" = none)
          kalgo |-> "ECCP256"]   \* key algorithm of the stub handler's agent key (the regular handler uses the package default)
@@ -24,7 +24,15 @@ Ans1 == {"honest", "nokey", "otherkey", "otherdata", "garbage", "empty", "failur
 Ans2 == Ans1 \cup {"replay"}
 Lists(X, n) == UNION {[1..m -> X] : m \in 0..n}
 HL == {hl \in Lists({"regular", "accept", "reject"}, 3) : Cardinality({j \in DOMAIN hl : hl[j] = "regular"}) <= 1}
-Vals == {1, 43200, 315360000}
+\* validity classes [x: decimal text of the configured value, n: the number capped at 2^31-1]
+VC(x, n) == [x |-> x, n |-> n]
+Vals == {VC("1", 1), VC("43200", 43200), VC("315360000", 315360000)}
+\* representation boundaries of every type the validity passes through (JSON number = float64 -> uint64 configuration ->
+\* uint64 proto field; uint32 agent lifetime next to it): 0, 1, 2^31-1, 2^31, 2^32-1, 2^32, 2^32+43200, 2^53-1, 2^53, 2^63
+\* (2^63-1 and 2^64-1 are not exact JSON numbers: the loader itself rounds them, so "the configured value" is not defined)
+VBound == Vals \cup {VC("0", 0), VC("2147483647", 2147483647), VC("2147483648", 2147483647), VC("4294967295", 2147483647),
+                      VC("4294967296", 2147483647), VC("4295010496", 2147483647), VC("9007199254740991", 2147483647),
+                      VC("9007199254740992", 2147483647), VC("9223372036854775808", 2147483647)}
 
 \* initial agents: the user's key; planted identities (foreign certificate, near misses of the handler label, a plain key);
 \* certificates left by an earlier generation of the regular handler (R) / of the stub handler (S)
@@ -65,7 +73,11 @@ C01t_Sc2(s) == IF s.more THEN {[Base EXCEPT !.ans = a, !.hs = hl, !.dir = d] : a
 Other(a) == (a + 1) % 5
 IdMaps(a) == {<<>>, <<[a |-> Other(a), f |-> "lower", id |-> "slot-o"]>>}
         \cup {<<[a |-> a, f |-> f, id |-> "slot-a"], [a |-> Other(a), f |-> "upper", id |-> "slot-o"]>> : f \in {"lower", "upper", "mixed", "num"}}
-C02_Sc1 == UNION {{[Base EXCEPT !.algo = a, !.ids = m, !.val = v] : m \in IdMaps(a), v \in Vals} : a \in 0..4}
+C02_Sc1 == UNION {{[Base EXCEPT !.algo = a, !.ids = m, !.val = v.n, !.valx = v.x] : m \in IdMaps(a), v \in Vals} : a \in 0..4}
+       \cup {[Base EXCEPT !.val = v.n, !.valx = v.x, !.hs = hl] : v \in VBound, hl \in {<<"regular">>, <<"reject", "regular">>}}
+       \cup {[Base EXCEPT !.val = v.n, !.valx = v.x, !.more = TRUE] : v \in {VC("4294967296", 2147483647), VC("4295010496", 2147483647)}}
+       \* CA key algorithm numbers beyond the named ones, configured by number
+       \cup UNION {{[Base EXCEPT !.algo = a, !.ids = m] : m \in {<<>>, <<[a |-> a, f |-> "num", id |-> "slot-a"], [a |-> 1, f |-> "lower", id |-> "slot-o"]>>}} : a \in {5, 255, 65536, 2147483647}}
        \cup {[Base EXCEPT !.more = TRUE, !.hs = hl] : hl \in {<<"regular">>, <<"reject", "regular">>}}
        \cup {[Base EXCEPT !.hs = hl] : hl \in {<<"accept", "regular">>, <<"regular", "accept">>}}
 C02_Sc2(s) == IF s.more THEN {[Base EXCEPT !.algo = a, !.more = m] : a \in {1, 2, 3}, m \in BOOLEAN} ELSE {}
@@ -73,14 +85,14 @@ C02_Sc2(s) == IF s.more THEN {[Base EXCEPT !.algo = a, !.more = m] : a \in {1, 2
 \* C03: histories of two (thorough: three) runs, success / failure before, during and after signing, 0..3 certificates,
 \* validity 1 s .. 10 y, pre-existing identities of every class
 C03_Sc1 == {[Base EXCEPT !.hs = hl, !.ncert = n, !.more = TRUE] : hl \in {<<"regular">>, <<"accept">>}, n \in {1, 3}}
-      \cup {[Base EXCEPT !.val = v, !.more = TRUE] : v \in Vals}
+      \cup {[Base EXCEPT !.val = v.n, !.valx = v.x, !.more = TRUE] : v \in Vals}
       \cup {[Base EXCEPT !.ans = "otherkey", !.more = TRUE]}
       \cup {[Base EXCEPT !.hs = <<"accept">>, !.kalgo = k, !.ncert = 2, !.more = TRUE] : k \in KAlgos}   \* every agent-key algorithm
 C03_Sc2(s) == IF ~s.more THEN {}
               ELSE IF s.kalgo # "ECCP256" THEN {[Base EXCEPT !.hs = <<"accept">>, !.kalgo = s.kalgo, !.ncert = n, !.fok = (n = 2)] : n \in {1, 2}}
               ELSE {[Base EXCEPT !.hs = hl, !.ncert = n, !.fok = TRUE] : hl \in {<<"regular">>, <<"accept">>}, n \in {0, 2}}
                    \cup {[Base EXCEPT !.ans = "otherkey"], [Base EXCEPT !.algo = 2]}
-C03t_Sc1 == {[Base EXCEPT !.hs = hl, !.ncert = n, !.val = v, !.more = TRUE] : hl \in {<<"regular">>, <<"accept">>}, n \in 1..3, v \in Vals}
+C03t_Sc1 == {[Base EXCEPT !.hs = hl, !.ncert = n, !.val = v.n, !.valx = v.x, !.more = TRUE] : hl \in {<<"regular">>, <<"accept">>}, n \in 1..3, v \in Vals}
        \cup {[Base EXCEPT !.ans = "otherkey", !.more = TRUE]}
        \cup {[Base EXCEPT !.hs = <<"accept">>, !.kalgo = k, !.ncert = 3, !.more = TRUE] : k \in KAlgos}
 \* (second runs admit faults; a third run follows a regular second run, without further faults)
